@@ -130,3 +130,172 @@ pub proof fn lemma_chunks_ok_iff_canonical(chunks: Seq<Seq<u8>>, p: bool)
         lemma_crlf_ok_iff_fixed(flatten(rest), end_cr(a, p));
     }
 }
+
+// ---------------------------------------------------------------------------------
+// replace_nl: the reading of `replace_newlines(input, replacement)`:
+// scanning left to right, every "\r\n" and every other "\n" is replaced by `rep`,
+// all other bytes (including lone "\r") are copied.
+// ---------------------------------------------------------------------------------
+pub open spec fn replace_nl(s: Seq<u8>, rep: Seq<u8>) -> Seq<u8>
+    decreases s.len()
+{
+    if s.len() == 0 {
+        Seq::<u8>::empty()
+    } else if s[0] == 10u8 {
+        rep + replace_nl(s.skip(1), rep)
+    } else if s[0] == 13u8 && s.len() >= 2 && s[1] == 10u8 {
+        rep + replace_nl(s.skip(2), rep)
+    } else {
+        seq![s[0]] + replace_nl(s.skip(1), rep)
+    }
+}
+
+/// with the replacement CRLF, replace_nl IS the canonical form of C14
+pub proof fn lemma_replace_crlf_is_canon(s: Seq<u8>)
+    ensures replace_nl(s, seq![13u8, 10u8]) == canon(s, false),
+    decreases s.len()
+{
+    let rep = seq![13u8, 10u8];
+    if s.len() == 0 {
+    } else if s[0] == 10u8 {
+        lemma_replace_crlf_is_canon(s.skip(1));
+    } else if s[0] == 13u8 && s.len() >= 2 && s[1] == 10u8 {
+        lemma_replace_crlf_is_canon(s.skip(2));
+        let t = s.skip(1);
+        assert(t[0] == 10u8);
+        assert(t.skip(1) =~= s.skip(2));
+        assert(canon(t, true) == seq![10u8] + canon(s.skip(2), false));
+        assert(canon(s, false) == seq![13u8] + canon(t, true));
+        assert(seq![13u8] + (seq![10u8] + canon(s.skip(2), false)) =~= rep + canon(s.skip(2), false));
+    } else {
+        lemma_replace_crlf_is_canon(s.skip(1));
+        let t = s.skip(1);
+        if s[0] == 13u8 {
+            if t.len() > 0 { assert(t[0] == s[1]); }
+            lemma_canon_state_irrelevant(t, true, false);
+        }
+    }
+}
+
+/// replace_nl distributes over a split that does not cut a CR LF pair
+pub proof fn lemma_replace_concat(a: Seq<u8>, b: Seq<u8>, rep: Seq<u8>)
+    requires !(a.len() > 0 && a.last() == 13u8 && b.len() > 0 && b[0] == 10u8),
+    ensures replace_nl(a + b, rep) == replace_nl(a, rep) + replace_nl(b, rep),
+    decreases a.len()
+{
+    let s = a + b;
+    if a.len() == 0 {
+        assert(s =~= b);
+        assert(replace_nl(a, rep) + replace_nl(b, rep) =~= replace_nl(b, rep));
+    } else if a[0] == 10u8 {
+        let a1 = a.skip(1);
+        assert(s[0] == 10u8);
+        assert(s.skip(1) =~= a1 + b);
+        if a1.len() > 0 { assert(a1.last() == a.last()); }
+        lemma_replace_concat(a1, b, rep);
+        assert(rep + (replace_nl(a1, rep) + replace_nl(b, rep)) =~= (rep + replace_nl(a1, rep)) + replace_nl(b, rep));
+    } else if a[0] == 13u8 && a.len() >= 2 && a[1] == 10u8 {
+        let a2 = a.skip(2);
+        assert(s[0] == 13u8 && s[1] == 10u8);
+        assert(s.skip(2) =~= a2 + b);
+        if a2.len() > 0 { assert(a2.last() == a.last()); }
+        lemma_replace_concat(a2, b, rep);
+        assert(rep + (replace_nl(a2, rep) + replace_nl(b, rep)) =~= (rep + replace_nl(a2, rep)) + replace_nl(b, rep));
+    } else {
+        let a1 = a.skip(1);
+        assert(s[0] == a[0]);
+        assert(s.skip(1) =~= a1 + b);
+        if a.len() >= 2 { assert(s[1] == a[1]); } else { assert(a.last() == a[0]); if b.len() > 0 { assert(s[1] == b[0]); } }
+        if a1.len() > 0 { assert(a1.last() == a.last()); }
+        lemma_replace_concat(a1, b, rep);
+        assert(seq![a[0]] + (replace_nl(a1, rep) + replace_nl(b, rep)) =~= (seq![a[0]] + replace_nl(a1, rep)) + replace_nl(b, rep));
+    }
+}
+
+/// a non-empty text has a non-empty image (for a non-empty replacement)
+pub proof fn lemma_replace_nonempty(s: Seq<u8>, rep: Seq<u8>)
+    requires s.len() > 0, rep.len() > 0,
+    ensures replace_nl(s, rep).len() > 0,
+{
+}
+
+/// a CR that is not followed by LF is copied
+pub proof fn lemma_replace_cr_head(b: Seq<u8>, rep: Seq<u8>)
+    requires b.len() == 0 || b[0] != 10u8,
+    ensures replace_nl(seq![13u8] + b, rep) == seq![13u8] + replace_nl(b, rep),
+{
+    let s = seq![13u8] + b;
+    assert(s[0] == 13u8);
+    if b.len() > 0 { assert(s[1] == b[0]); }
+    assert(s.skip(1) =~= b);
+}
+
+/// CR LF becomes the replacement
+pub proof fn lemma_replace_crlf_head(b: Seq<u8>, rep: Seq<u8>)
+    ensures replace_nl(seq![13u8, 10u8] + b, rep) == rep + replace_nl(b, rep),
+{
+    let s = seq![13u8, 10u8] + b;
+    assert(s[0] == 13u8 && s[1] == 10u8);
+    assert(s.skip(2) =~= b);
+}
+
+/// text without LF is copied
+pub proof fn lemma_replace_no_lf(s: Seq<u8>, rep: Seq<u8>)
+    requires no_lf(s),
+    ensures replace_nl(s, rep) == s,
+    decreases s.len()
+{
+    if s.len() == 0 {
+        assert(replace_nl(s, rep) =~= s);
+    } else {
+        assert(s[0] != 10u8);
+        if s.len() >= 2 { assert(s[1] != 10u8); }
+        assert(no_lf(s.skip(1))) by {
+            assert forall|i: int| 0 <= i < s.skip(1).len() implies s.skip(1)[i] != 10u8 by { assert(s.skip(1)[i] == s[i + 1]); }
+        }
+        lemma_replace_no_lf(s.skip(1), rep);
+        assert(seq![s[0]] + s.skip(1) =~= s);
+    }
+}
+
+/// one step of the scan in `replace_newlines`: after an already processed prefix `pre` (empty or ending in LF,
+/// in any case not ending in CR) comes a line body without LF, then CR LF (`cr`) or a lone LF (`!cr`)
+pub proof fn lemma_replace_segment(pre: Seq<u8>, body: Seq<u8>, cr: bool, rep: Seq<u8>)
+    requires
+        no_lf(body),
+        pre.len() == 0 || pre.last() != 13u8,
+        !cr ==> (body.len() == 0 || body.last() != 13u8),
+    ensures
+        replace_nl(pre + body + (if cr { seq![13u8, 10u8] } else { seq![10u8] }), rep) == replace_nl(pre, rep) + body + rep,
+{
+    let sep = if cr { seq![13u8, 10u8] } else { seq![10u8] };
+    // replace_nl(sep) == rep
+    if cr {
+        lemma_replace_crlf_head(Seq::<u8>::empty(), rep);
+        assert(seq![13u8, 10u8] + Seq::<u8>::empty() =~= seq![13u8, 10u8]);
+    } else {
+        assert(sep.skip(1) =~= Seq::<u8>::empty());
+    }
+    assert(replace_nl(Seq::<u8>::empty(), rep) =~= Seq::<u8>::empty());
+    assert(rep + Seq::<u8>::empty() =~= rep);
+    assert(replace_nl(sep, rep) == rep);
+    // body + sep
+    lemma_replace_no_lf(body, rep);
+    lemma_replace_concat(body, sep, rep);
+    // pre + (body + sep)
+    let seg = body + sep;
+    if body.len() > 0 { assert(seg[0] == body[0]); assert(body[0] != 10u8); } else { assert(seg[0] == sep[0]); }
+    lemma_replace_concat(pre, seg, rep);
+    assert(pre + body + sep =~= pre + seg);
+    assert(replace_nl(pre, rep) + (body + rep) =~= replace_nl(pre, rep) + body + rep);
+}
+
+/// the rest of the input after the last LF is copied
+pub proof fn lemma_replace_tail(pre: Seq<u8>, tail: Seq<u8>, rep: Seq<u8>)
+    requires no_lf(tail),
+    ensures replace_nl(pre + tail, rep) == replace_nl(pre, rep) + tail,
+{
+    if tail.len() > 0 { assert(tail[0] != 10u8); }
+    lemma_replace_concat(pre, tail, rep);
+    lemma_replace_no_lf(tail, rep);
+}
